@@ -1,6 +1,193 @@
-(* C05 — CDP custody, debt accounting and index coherence (placeholder, theorems follow). *)
-From Kava Require Import Base.Prelude Base.Dec Model.Cdp.
+(* C05 — CDP: seized only when under-collateralised; users cannot go below the ratio.
+   Property theorems only; proofs are in Proofs/Cdp.v and Proofs/CdpRatio.v.
 
+   [ratio_at e cp p coll prin fees] is CalculateCollateralizationRatio at the fetched price p
+   (value of the collateral in base units times p, divided by principal+fees in base units,
+   with LegacyDec rounding); [c2d_ratio] is the price-free collateral:debt ratio that keys the
+   ratio index; [liq_cut p liq] is 1/(p/liq) as LiquidateCdps computes it. *)
+From Kava Require Import Base.Prelude Base.Dec Model.Cdp Proofs.CdpRatio Proofs.Cdp.
+
+(** ** Users cannot go below the ratio *)
+
+(* A successful draw leaves the stored cdp at or above the liquidation ratio at the spot price. *)
+Theorem C05_draw_gate :
+  forall e s o t pd x s' u, draw e s o t pd x = Ok s' u ->
+  exists cp c0 c' r,
+    get_cp e t = Some cp /\ find_cdp e s o t = Some c0 /\
+    c_id c' = c_id c0 /\ c_type c' = c_type c0 /\ c_owner c' = c_owner c0 /\ c_coll c' = c_coll c0 /\
+    c_prin c' = c_prin c0 + x /\ 0 < x /\
+    cdps s' (c_type c') (c_id c') = Some c' /\ price s' = price s /\
+    ratio_at e cp (price s' (cp_spot cp)) (c_coll c') (c_prin c') (c_fees c') = Ok tt r /\ cp_liq cp <= r.
+Proof. exact draw_gate. Qed.
+Print Assumptions C05_draw_gate.
+
+(* A successful withdrawal leaves the stored cdp at or above the liquidation ratio at the spot price. *)
+Theorem C05_withdraw_gate :
+  forall e s o u t cd x s' v, withdraw e s o u t cd x = Ok s' v ->
+  exists cp c0 c' r,
+    get_cp e t = Some cp /\ find_cdp e s o t = Some c0 /\
+    mstat s (cp_spot cp) = true /\ mstat s (cp_liqm cp) = true /\
+    c_id c' = c_id c0 /\ c_type c' = c_type c0 /\ c_owner c' = c_owner c0 /\
+    c_coll c' = c_coll c0 - x /\ c_prin c' = c_prin c0 /\ 0 < x /\
+    cdps s' (c_type c') (c_id c') = Some c' /\ price s' = price s /\
+    ratio_at e cp (price s' (cp_spot cp)) (c_coll c') (c_prin c') (c_fees c') = Ok tt r /\ cp_liq cp <= r.
+Proof. exact withdraw_gate. Qed.
+Print Assumptions C05_withdraw_gate.
+
+(* A created cdp is at or above the liquidation ratio at the spot price. *)
+Theorem C05_create_gate :
+  forall e s o t cd coll pd prin s' v, create e s o t cd coll pd prin = Ok s' v ->
+  exists cp r,
+    get_cp e t = Some cp /\ mstat s (cp_spot cp) = true /\ mstat s (cp_liqm cp) = true /\
+    find_cdp e s o t = None /\ dp_floor e <= prin /\
+    cdps s' t (nextid s) =
+      Some (mkCdp (nextid s) o t coll prin 0 (now s) (match ifac s t with None => PREC | Some f => f end)) /\
+    price s' = price s /\ nextid s' = S (nextid s) /\
+    ratio_at e cp (price s' (cp_spot cp)) coll prin 0 = Ok tt r /\ cp_liq cp <= r.
+Proof. exact create_gate. Qed.
+Print Assumptions C05_create_gate.
+
+(** ** Price-feed gate *)
+
+(* Creation, deposit and withdrawal are refused unless both market-status flags of the collateral are up. *)
+Theorem C05_pricefeed_gate :
+  forall e s t cp, get_cp e t = Some cp -> mstat s (cp_spot cp) = false \/ mstat s (cp_liqm cp) = false ->
+  (forall o cd coll pd prin, create e s o t cd coll pd prin = Err) /\
+  (forall o u cd x, deposit e s o u t cd x = Err) /\
+  (forall o u cd x, withdraw e s o u t cd x = Err).
+Proof.
+  intros e s t cp Hcp Hdown.
+  assert (Hv : forall cd, validate_collateral e s t cd = None).
+  { intros cd. unfold validate_collateral. rewrite Hcp. destruct (Nat.eqb _ _); [|reflexivity].
+    destruct Hdown as [->| ->]; [reflexivity|]. destruct (mstat s (cp_spot cp)); reflexivity. }
+  repeat split; intros.
+  - unfold create. destruct (_ && _); [|reflexivity]. cbn [negb]. rewrite Hv. reflexivity.
+  - unfold deposit. destruct (0 <? x); [|reflexivity]. cbn [negb]. rewrite Hv. reflexivity.
+  - unfold withdraw. destruct (0 <? x); [|reflexivity]. cbn [negb]. rewrite Hv. reflexivity.
+Qed.
+Print Assumptions C05_pricefeed_gate.
+
+(* UpdatePricefeedStatus sets the flag from the availability of the price. *)
+Theorem C05_status_follows_price :
+  forall s m, mstat (fst (update_status s m)) m = negb (price s m =? 0) /\ snd (update_status s m) = negb (price s m =? 0).
+Proof. intros s m. unfold update_status. cbn. unfold upd. rewrite Nat.eqb_refl. split; reflexivity. Qed.
+Print Assumptions C05_status_follows_price.
+
+(* Draw is refused while the spot price is unavailable (it consults the price, not the status flags) ... *)
+Theorem C05_pricefeed_gate_draw_partial :
+  forall e s o t pd x s' u cp, get_cp e t = Some cp -> 0 < cp_liq cp ->
+  draw e s o t pd x = Ok s' u -> price s (cp_spot cp) <> 0.
+Proof.
+  intros e s o t pd x s' u cp Hcp Hl H Hp.
+  apply draw_gate in H. destruct H as (cp' & c0 & c' & r & Hcp' & _ & _ & _ & _ & _ & _ & _ & _ & Hpr & Hr & Hle).
+  assert (cp' = cp) by congruence. subst cp'. rewrite Hpr, Hp in Hr.
+  apply ratio_at_price_zero in Hr. lia.
+Qed.
+Print Assumptions C05_pricefeed_gate_draw_partial.
+
+(** ** Keeper liquidation only below the ratio *)
+Theorem C05_keeper_liq_only_below :
+  forall e s k o t s' v, keeper_liquidate e s k o t = Ok s' v ->
+  exists cp c0 s1 c r,
+    get_cp e t = Some cp /\ find_cdp e s o t = Some c0 /\ sync_interest e s cp c0 = Ok s1 c /\
+    c_coll c = c_coll c0 /\ c_prin c = c_prin c0 /\
+    ratio_at e cp (price s (cp_liqm cp)) (c_coll c) (c_prin c) (c_fees c) = Ok tt r /\ r < cp_liq cp.
+Proof. exact keeper_gate. Qed.
+Print Assumptions C05_keeper_liq_only_below.
+
+(** ** Block-level liquidation *)
+
+(* Which cdps LiquidateCdps touches: exactly those read from the scan of the ratio index below the cut... *)
+Theorem C05_block_liq_only_scanned :
+  forall e s t cp s' u, liquidate_cdps e s t cp = Ok s' u ->
+  forall t' id, cdps s' t' id <> cdps s t' id ->
+  exists x c, In x (idx_below (rkey (liq_cut (price s (cp_liqm cp)) (cp_liq cp))) (scan_count cp) (ridx s t)) /\
+    fst x < rkey (liq_cut (price s (cp_liqm cp)) (cp_liq cp)) /\
+    get_cdp e s t (snd x) = Some c /\ t' = c_type c /\ id = c_id c.
+Proof. exact liquidate_cdps_only_scanned. Qed.
+Print Assumptions C05_block_liq_only_scanned.
+
+(* ... and an index ratio below the cut means: collateral C and debt D in base units satisfy
+   C*q < D*(1 + q*10^-36) where q = price/liqRatio as rounded by the code, and
+   q*liqRatio > price - liqRatio*(1/2*10^-18 + 10^-36).  Hence the exact value ratio
+   C*price/D is below liqRatio*(1 + eps), eps ~ 10^-18 * liqRatio / (2*price). *)
+Theorem C05_block_liq_only_below_partial :
+  forall coll cfc debt cfd p liq,
+  rkey (c2d_ratio coll cfc debt cfd) < rkey (liq_cut p liq) ->
+  0 <= to_base coll cfc -> 0 < to_base debt cfd < MAXS -> 0 <= p -> 0 < liq ->
+  to_base coll cfc * cut_div p liq * PREC * PREC < to_base debt cfd * (PREC * PREC * PREC + cut_div p liq) /\
+  2 * p * PREC * PREC < 2 * cut_div p liq * liq * PREC + liq * PREC + 2 * liq.
+Proof. exact below_cut_partial. Qed.
+Print Assumptions C05_block_liq_only_below_partial.
+
+(* The statement without slack is false: price 0.5, liquidation ratio 1.5, collateral 30 000 000,
+   debt 10 000 000 (conversion factors 6/6): the cdp is created at exactly 150 %, keeper
+   liquidation is refused (ratio not below), and the next begin blocker seizes it. *)
+Definition w_env : env :=
+  mkEnv 4 5 4 [mkCP 0 1500000000000000000 100000000000000 1000000001547125958 10000000 50000000000000000 0 1 10000000000000000 10 8;
+               mkCP 0 1500000000000000000 100000000000000 1000000001547125958 10000000 50000000000000000 0 1 10000000000000000 10 8;
+               mkCP 4 1500000000000000000 100000000000000 1000000001547125958 10000000 50000000000000000 2 3 10000000000000000 10 6]
+        3 1 2 6 1 400000000000000 500000000000 10000000000 100000000000 10000000000 1.
+Definition w_s0 : state :=
+  mk_state [[100000000000000; 0; 1000000000; 2000000000000; 100000000000000]; [100000000000000; 0; 1000000000; 2000000000000; 100000000000000];
+            [100000000000000; 0; 1000000000; 2000000000000; 100000000000000]; [100000000000000; 0; 1000000000; 2000000000000; 100000000000000];
+            [0; 0; 0; 0; 0]; [0; 0; 0; 0; 0]; [0; 0; 0; 0; 0]]
+           [400000000000000; 0; 100004001000000; 8000000000000; 400000000000000]
+           [17250000000000000000; 17250000000000000000; 500000000000000000; 500000000000000000] [true; true; true; true]
+           [1000000000000000000; 1000000000000000000; 1000000000000000000]
+           [1704067200000000000; 1704067200000000000; 1704067200000000000] 1 1704067200000000000 1.
+Definition w_s1 : state := run w_env w_s0 [Create 0 2 4 30000000 3 10000000].
+
+Theorem C05_block_liq_only_below_refuted :
+  inv_b w_env 8000000000000 w_s1 = true /\
+  (* the cdp exists and sits exactly at the liquidation ratio at the liquidation price *)
+  (match cdps w_s1 2 1, get_cp w_env 2 with
+   | Some c, Some cp =>
+       ratio_at w_env cp (price w_s1 (cp_liqm cp)) (c_coll c) (c_prin c) (c_fees c) = Ok tt (cp_liq cp)
+   | _, _ => False end) /\
+  (* a keeper liquidation is refused *)
+  step w_env w_s1 (Liquidate 1 0 2) = Err /\
+  (* the next begin blocker (one second later, no price change) seizes it *)
+  (match step w_env w_s1 (Block 1000000000 []) with
+   | Ok s2 _ => cdps s2 2 1 = None /\ inv_b w_env 8000000000000 s2 = true
+   | _ => False end).
+Proof. vm_compute. repeat split; reflexivity. Qed.
+Print Assumptions C05_block_liq_only_below_refuted.
+
+(* Completeness: every cdp read from the scan (the lowest index ratios below the cut, up to the count) is seized. *)
+Theorem C05_block_liq_complete :
+  forall e s t cp s' u, liquidate_cdps e s t cp = Ok s' u -> price s (cp_liqm cp) <> 0 ->
+  forall x, In x (idx_below (rkey (liq_cut (price s (cp_liqm cp)) (cp_liq cp))) (scan_count cp) (ridx s t)) ->
+  exists c, get_cdp e s t (snd x) = Some c /\ cdps s' (c_type c) (c_id c) = None.
+Proof. exact liquidate_cdps_complete. Qed.
+Print Assumptions C05_block_liq_complete.
+
+(* ... and the begin blocker runs that pass for a type whose two feeds are up when the interval comes round. *)
+Theorem C05_block_liq_at_interval :
+  forall e s t cp s' u, begin_type e false s (t, cp) = Ok s' u ->
+  price s (cp_spot cp) <> 0 -> price s (cp_liqm cp) <> 0 ->
+  exists s4, liquidate_cdps e s4 t cp = Ok s' u /\ price s4 = price s.
+Proof. exact begin_type_liquidates. Qed.
+Print Assumptions C05_block_liq_at_interval.
+
+(** ** A seizure removes the whole position; exactly its collateral and its debt enter auctions *)
+Theorem C05_seizure_whole :
+  forall e s cp c s' u, seize e s cp c = Ok s' u ->
+  (forall w a, deps s (c_id c) w = Some a -> 0 <= a) -> 0 < cp_asize cp ->
+  0 <= cdp_debt c -> 0 <= bal s (CDPM e) (d_debt e) ->
+  cdps s' = upd2 (cdps s) (c_type c) (c_id c) None /\
+  (forall w, (w < nusers e)%nat -> deps s' (c_id c) w = None) /\
+  (forall i w, i <> c_id c -> deps s' i w = deps s i w) /\
+  oidx s' = upd (oidx s) (c_owner c) (filter (fun x => negb (Nat.eqb x (c_id c))) (oidx s (c_owner c))) /\
+  ridx s' = upd (ridx s) (c_type c) (ent_del (rkey (cdp_ratio e cp c), c_id c) (ridx s (c_type c))) /\
+  price s' = price s /\ nextid s' = nextid s /\
+  exists l, aucs s' = aucs s ++ l /\ Forall (auc_in cp) l /\
+    lots l = zsum (map snd (dep_list e s (c_id c))) /\
+    (dep_list e s (c_id c) <> [] -> adebts l = Z.min (cdp_debt c) (bal s (CDPM e) (d_debt e))).
+Proof. exact seize_spec. Qed.
+Print Assumptions C05_seizure_whole.
+
+(* A failed operation leaves no change (transaction discarded). *)
 Theorem C05_failed_changes_nothing :
   forall e s o, (forall s' u, step e s o <> Ok s' u) -> step' e s o = s.
 Proof.
@@ -8,3 +195,15 @@ Proof.
   exfalso. exact (H s' u eq_refl).
 Qed.
 Print Assumptions C05_failed_changes_nothing.
+
+(** ** Non-vacuity *)
+(* a keeper liquidation that succeeds and a seizure with two deposits (price drop to 0.3) *)
+Example C05_nonvacuous :
+  let s2 := run w_env w_s0 [Create 0 2 4 40000000 3 10000003; Deposit 0 1 2 4 40000000] in
+  inv_b w_env 8000000000000 s2 = true /\
+  (match step w_env s2 (Block 1000000000 [(2%nat, 150000000000000000); (3%nat, 150000000000000000)]) with
+   | Ok s3 _ => cdps s3 2 1 = None /\ adebts (aucs s3) = 10000003 /\ lots (aucs s3) = 80000000 /\ inv_b w_env 8000000000000 s3 = true
+   | _ => False end) /\
+  (match step w_env (step' w_env s2 (Block 1000000000 [(2%nat, 300000000000000000); (3%nat, 1000000000000000000)])) (Draw 0 2 3 5) with
+   | Ok _ _ => True | _ => False end).
+Proof. vm_compute. repeat split; reflexivity. Qed.
